@@ -119,10 +119,29 @@ class TseitinTransformation:
     def goal2intcnf(self, goal: z3.Goal) -> list[list[int]]:
         cnf = []
         for expr in goal:
-            if z3.is_or(expr):
-                cnf.append([self.expr_to_signed_id(x) for x in expr.children()])
+            literals = expr.children() if z3.is_or(expr) else [expr]
+            clause: list[int] = []
+            satisfied = False
+            for literal in literals:
+                # The tactic may leave the constants true/false in a goal (e.g. the
+                # goal of an unsatisfiable formula is the single formula false);
+                # they are truth values, not propositional variables.
+                if z3.is_true(literal):
+                    satisfied = True
+                    break
+                if z3.is_false(literal):
+                    continue
+                clause.append(self.expr_to_signed_id(literal))
+            if satisfied:
+                continue
+            if not clause:
+                # an unsatisfiable clause: encode it as x and not x over a reserved variable
+                pool = cast(IDPool, self.epistemic_state["pool"])  # type: ignore[assignment]
+                falsum = pool.id("infocf-falsum")
+                cnf.append([falsum])
+                cnf.append([-falsum])
             else:
-                cnf.append([self.expr_to_signed_id(expr)])
+                cnf.append(clause)
         return cnf
 
     """
